@@ -1597,7 +1597,7 @@ func (k *c06) checkMessage(pub *packets.Publish, cas func() any) {
 
 // ---------------------------------------------------------------- mutation closure
 
-func (k *c06) mutate(idx int, cs c06Case, b1 []byte, maxSubst int) {
+func (k *c06) mutate(idx int, cs c06Case, b1 []byte, maxSubst, maxPair int) {
 	v := cs.P.Version
 	n := len(b1)
 	seen := map[string]struct{}{string(b1): {}}
@@ -1627,6 +1627,30 @@ func (k *c06) mutate(idx int, cs c06Case, b1 []byte, maxSubst int) {
 				buf[i] = byte(x)
 				i, x := i, x
 				try(buf, func() string { return fmt.Sprintf("byte %d := 0x%02x", i, x) })
+			}
+		}
+	}
+	if n <= maxPair {
+		// pairs of substitutions over the reduced alphabet: distinct from each other and from
+		// every other mutant by construction (same length, two positions changed)
+		for i := 0; i < n; i++ {
+			for j := i + 1; j < n; j++ {
+				for _, x := range c06Reduced {
+					if x == b1[i] {
+						continue
+					}
+					for _, y := range c06Reduced {
+						if y == b1[j] {
+							continue
+						}
+						buf = append(buf[:0], b1...)
+						buf[i], buf[j] = x, y
+						i, j, x, y := i, j, x, y
+						k.count("mutants", 1)
+						k.count("pair_mutants", 1)
+						k.checkBytesLazy("mutation", buf, v, extra, func() string { return fmt.Sprintf("byte %d := 0x%02x, byte %d := 0x%02x", i, x, j, y) })
+					}
+				}
 			}
 		}
 	}
@@ -2112,13 +2136,22 @@ func c06Replay(c *explore.Ctx, rc map[string]any) {
 		fmt.Printf("  reference: ok=%v reason=%q packet=%v\n", rv.ok, rv.reason, rv.p)
 		k.checkBytes(fmt.Sprint(rc["phase"]), in, v, nil, true)
 	case "value":
-		corpus := c06Corpus(!c.Quick())
-		idx := num("corpus_index")
-		if idx >= len(corpus) || corpus[idx].label != rc["label"] {
-			corpus = c06Corpus(true)
+		var corpus []c06Case
+		idx := -1
+		for _, th := range []bool{false, true} {
+			corpus = c06Corpus(th)
+			for i, cs := range corpus {
+				if cs.label == rc["label"] && int(cs.P.Version) == num("version") && c06TypeName(cs.P.Type) == rc["type"] &&
+					(idx < 0 || i == num("corpus_index")) {
+					idx = i
+				}
+			}
+			if idx >= 0 {
+				break
+			}
 		}
-		if idx >= len(corpus) {
-			c.Fatal("replay: corpus index %d out of range", idx)
+		if idx < 0 {
+			c.Fatal("replay: no corpus value %v %v %v", rc["type"], rc["version"], rc["label"])
 			return
 		}
 		fmt.Printf("  value: %s %s %s\n", c06TypeName(corpus[idx].P.Type), c06V(corpus[idx].P.Version), corpus[idx].label)
@@ -2141,7 +2174,7 @@ func c06Replay(c *explore.Ctx, rc map[string]any) {
 
 func runC06(c *explore.Ctx) {
 	c.Level = "exploration"
-	c.Rule = "E5 small-scope inputs through gmqtt's pkg/packets with refmqtt as independent codec. (raw) every byte string of length <=3 and every string of length 4 (thorough: 4-5) over {16 type nibbles x flags 0,2,3,F} x {00,01,02,04,7f,80,ff + every property id}, each under reader versions 3.1/3.1.1/5; (length) 5-9 byte remaining-length fields and a 64 KiB run of 0x80; (alloc) declared lengths 127..268435455 with 0-8 body bytes, allocation measured with runtime.MemStats.TotalAlloc; (corpus) generated well-formed values of all 15 packet types x 3 versions, every legal property alone at min/typical/boundary values plus all-properties packets: reference-encode -> gmqtt decode -> field equality, gmqtt struct -> Pack -> reference decode, TotalBytes, Message.TotalBytes; (mutation) for corpus packets <=200 bytes all truncations, single deletions, insertions of 00/80/ff and, for packets <= 40 bytes (quick: 24), all 255 substitutions of every byte, deduplicated per origin; (propgrid) every property id single/doubled in each of 14 property hosts; (validators) all strings of length <=5 over {a / + # $ NUL C3 A9 FF EF BF BD} and '$share/'+strings of length <=4. Oracles: no panic; bytes consumed <= declared packet length and == it on success; no packet from incomplete input; remaining length <= 4 bytes; allocation <= 64 KiB + 16 x bytes supplied; accepted => Pack output re-decodes DeepEqual and TotalBytes == length; accept/reject vs reference counted per class (d_acc:/d_rej:) and flagged only for invalid UTF-8, duplicate/misplaced property, reserved flags, wildcard in PUBLISH topic under 3.1.1/5. distinct_nontrivial counts, distinct by construction: raw inputs (bytes,version) the decoder accepted + corpus values (deduplicated by encoding) + property-grid packets + validator strings that are non-empty valid UTF-8; mutants are NOT included (distinct only per origin)."
+	c.Rule = "E5 small-scope inputs through gmqtt's pkg/packets with refmqtt as independent codec. (raw) every byte string of length <=3 and every string of length 4 (thorough: 4-5) over {16 type nibbles x flags 0,2,3,F} x {00,01,02,04,7f,80,ff + every property id}, each under reader versions 3.1/3.1.1/5 (5-byte inputs declaring more than 4 MiB are skipped, that shape is the alloc phase); (length) 5-9 byte remaining-length fields and a 64 KiB run of 0x80; (alloc) declared lengths 127..268435455 with 0-8 body bytes, allocation measured with runtime.MemStats.TotalAlloc; (corpus) generated well-formed values of all 15 packet types x 3 versions, every legal property alone at min/typical/boundary values plus all-properties packets: reference-encode -> gmqtt decode -> field equality, gmqtt struct -> Pack -> reference decode, TotalBytes, Message.TotalBytes; (mutation) for corpus packets <=200 bytes all truncations, single deletions, insertions of 00/80/ff and, for packets <= 40 bytes (thorough: 64), all 255 substitutions of every byte, deduplicated per origin; thorough adds all pairs of substitutions over the reduced alphabet for packets <= 20 bytes; (propgrid) every property id single/doubled in each of 14 property hosts; (validators) all strings of length <=5 over {a / + # $ NUL C3 A9 FF EF BF BD} and '$share/'+strings of length <=4. Oracles: no panic; bytes consumed <= declared packet length and == it on success; no packet from incomplete input; remaining length <= 4 bytes; allocation <= 64 KiB + 16 x bytes supplied; accepted => Pack output re-decodes DeepEqual and TotalBytes == length; accept/reject vs reference counted per class (d_acc:/d_rej:) and flagged only for invalid UTF-8, duplicate/misplaced property, reserved flags, wildcard in PUBLISH topic under 3.1.1/5. distinct_nontrivial counts, distinct by construction: raw inputs (bytes,version) the decoder accepted + corpus values (deduplicated by encoding) + property-grid packets + validator strings that are non-empty valid UTF-8; mutants are NOT included (distinct only per origin)."
 	c.Trusted = []string{"refmqtt reference codec (written from the OASIS texts, checked against itself on every corpus value)", "runtime.MemStats.TotalAlloc", "reflect.DeepEqual"}
 	c.Assumptions = []string{
 		"an empty topic name accepted by ValidTopicName is not flagged (needed for MQTT 5 topic aliases)",
@@ -2179,6 +2212,28 @@ func runC06(c *explore.Ctx) {
 		k.flush()
 	})
 	lap("length")
+	units("raw3", 256, func(u int) {
+		k := newC06(c)
+		k.raw3(byte(u))
+		k.flush()
+		if u == 0x30 {
+			c.Sample(map[string]any{"phase": "raw3", "first_byte": "0x30", "inputs": "30, 30 00 .. 30 ff, 30 00 00 .. 30 ff ff under v3.1, v3.1.1, v5"})
+		}
+	})
+	lap("raw3")
+	maxLen := 4
+	if thorough {
+		maxLen = 5
+	}
+	flagsSet := []byte{0, 2, 3, 0xF}
+	units("raw45", 64*len(c06Reduced), func(u int) {
+		k := newC06(c)
+		f := u / len(c06Reduced)
+		first := byte(f/4)<<4 | flagsSet[f%4]
+		k.raw45(first, c06Reduced[u%len(c06Reduced)], maxLen)
+		k.flush()
+	})
+	lap("raw45")
 	units("alloc", 1, func(u int) {
 		k := newC06(c)
 		k.allocPhase(thorough)
@@ -2186,9 +2241,9 @@ func runC06(c *explore.Ctx) {
 		c.Sample(map[string]any{"phase": "alloc", "example_input_hex": "30ffffff7f0001", "meaning": "PUBLISH declaring 268435455 bytes, 2 body bytes supplied"})
 	})
 	lap("alloc")
-	maxSubst := 24
+	maxSubst, maxPair := 40, 0
 	if thorough {
-		maxSubst = 40
+		maxSubst, maxPair = 64, 20
 	}
 	units("corpus", len(corpus), func(u int) {
 		k := newC06(c)
@@ -2196,7 +2251,7 @@ func runC06(c *explore.Ctx) {
 		b1 := k.checkValue(u, cs)
 		if b1 != nil && !cs.big && len(b1) <= 200 {
 			k.count("mutation_origins", 1)
-			k.mutate(u, cs, b1, maxSubst)
+			k.mutate(u, cs, b1, maxSubst, maxPair)
 		}
 		k.flush()
 		if u%211 == 5 {
@@ -2229,28 +2284,6 @@ func runC06(c *explore.Ctx) {
 		k.flush()
 	})
 	lap("validators")
-	maxLen := 4
-	if thorough {
-		maxLen = 5
-	}
-	flagsSet := []byte{0, 2, 3, 0xF}
-	units("raw45", 64*len(c06Reduced), func(u int) {
-		k := newC06(c)
-		f := u / len(c06Reduced)
-		first := byte(f/4)<<4 | flagsSet[f%4]
-		k.raw45(first, c06Reduced[u%len(c06Reduced)], maxLen)
-		k.flush()
-	})
-	lap("raw45")
-	units("raw3", 256, func(u int) {
-		k := newC06(c)
-		k.raw3(byte(u))
-		k.flush()
-		if u == 0x30 {
-			c.Sample(map[string]any{"phase": "raw3", "first_byte": "0x30", "inputs": "30, 30 00 .. 30 ff, 30 00 00 .. 30 ff ff under v3.1, v3.1.1, v5"})
-		}
-	})
-	lap("raw3")
 	if !c.IsWorker() {
 		if a, r := c.Get("disagree_gmqtt_accepts_ref_rejects"), c.Get("disagree_gmqtt_rejects_ref_accepts"); a+r > 0 {
 			c.Note("accept/reject disagreements with the reference (first packet of the input): gmqtt accepts / reference rejects = %d (classes d_acc:*), gmqtt rejects / reference accepts = %d (d_rej:* by packet type); only the explicitly forbidden classes are violations", a, r)
